@@ -16,6 +16,8 @@ import (
 	"github.com/foxcpp/maddy/framework/log"
 	smtpendp "github.com/foxcpp/maddy/internal/endpoint/smtp"
 	_ "github.com/foxcpp/maddy/internal/limits"
+	_ "github.com/foxcpp/maddy/internal/modify"
+	_ "github.com/foxcpp/maddy/internal/table"
 	"github.com/foxcpp/maddy/verifharness/scripted"
 	"github.com/foxcpp/maddy/verifharness/vtrace"
 )
@@ -37,6 +39,22 @@ type Cfg struct {
 	// the body), "hdr" (after the header), "zero" (before the first byte).
 	Buf    string `json:"buf"`
 	CutPos string `json:"cutpos"`
+	// Alias (harness-only as well: the design is independent of recipient rewriting): the pipeline
+	// rewrites recipients with a real modify.replace_rcpt so that the targets see ONE address for
+	// several original recipients (aliases of a mailbox):
+	//   "dest"     in every destination block: ra, rb, rc -> box@dst.example
+	//   "destself" in every destination block: rb, rc -> ra@dst.example (the first original IS the mailbox)
+	//   "src"      in the source block, "global" at the top level: ra, rb, rc -> box@dst.example, which is
+	//              routed to T1 (used with one target only, where every recipient is routed to T1 anyway)
+	// The scripted targets then identify a recipient by the RCPT command being processed.
+	Alias string `json:"alias"`
+	// RejVia / ChkVia (harness-only too: for the design a refusal at the recipient stage / at the
+	// body stage is one class each, whoever refuses): who refuses the recipient rej@dst.example
+	// and the message of class "chk": "" = a `reject` destination / the scripted check;
+	// "gmod" | "smod" | "dmod" = a failing modifier (modify.verifsess) at the top level, in the
+	// source block, in the destination blocks. Not combined with Alias.
+	RejVia string `json:"rejvia"`
+	ChkVia string `json:"chkvia"`
 }
 
 // Step is one entry of the behaviour history printed by TLC.
@@ -50,6 +68,7 @@ type Step struct {
 	Op  string `json:"op"`
 	Res string `json:"res"`
 	St  StMap  `json:"st"`
+	K   string `json:"k"` // "Env": wait | storm | peer+ | peer-
 }
 
 // StMap is a recipient -> status map; TLC prints the empty function as [].
@@ -94,9 +113,11 @@ func Route(c Cfg) map[string][]string {
 	return map[string][]string{"ra": {t(1)}, "rb": {t(2)}, "rc": {t(3)}}
 }
 
-// ScriptOf extracts the client script and the per-target fault plans.
-func ScriptOf(h []Step) ([]Cmd, map[string][]scripted.NPlan) {
+// ScriptOf extracts the client script (environment events attached to the command they
+// precede; the ones after the last command are returned separately) and the per-target fault plans.
+func ScriptOf(h []Step) ([]Cmd, map[string][]scripted.NPlan, []string) {
 	var cmds []Cmd
+	var pre []string
 	plans := map[string][]scripted.NPlan{}
 	cur := func(t string) *scripted.NPlan {
 		if len(plans[t]) == 0 {
@@ -106,8 +127,12 @@ func ScriptOf(h []Step) ([]Cmd, map[string][]scripted.NPlan) {
 	}
 	for _, s := range h {
 		switch s.A {
+		case "Env":
+			pre = append(pre, s.K)
 		case "Cmd":
-			cmds = append(cmds, Cmd{V: s.V, A: s.Arg, R: s.R, P: s.P})
+			// the environment acts while the server is idle: the command after it is not pipelined
+			cmds = append(cmds, Cmd{V: s.V, A: s.Arg, R: s.R, P: s.P && len(pre) == 0, Pre: pre})
+			pre = nil
 		case "Tgt":
 			switch s.Op {
 			case "start":
@@ -126,7 +151,7 @@ func ScriptOf(h []Step) ([]Cmd, map[string][]scripted.NPlan) {
 			}
 		}
 	}
-	return cmds, plans
+	return cmds, plans, pre
 }
 
 const (
@@ -242,6 +267,8 @@ func node(name string, args []string, children ...config.Node) config.Node {
 	return config.Node{Name: name, Args: args, Children: children}
 }
 
+var sessModNode = node("modify", nil, node("verifsess", nil))
+
 func endpointConfig(c Cfg, bufDir string) []config.Node {
 	buf := []string{"ram"}
 	switch c.Buf {
@@ -260,19 +287,61 @@ func endpointConfig(c Cfg, bufDir string) []config.Node {
 	if c.Defer {
 		yn = "yes"
 	}
+	aliasTo := "box@" + dstDom
+	if c.Alias == "destself" {
+		aliasTo = "ra@" + dstDom
+	}
+	rewrite := func(rs ...string) config.Node {
+		var entries []config.Node
+		for _, r := range rs {
+			if r+"@"+dstDom != aliasTo {
+				entries = append(entries, node("entry", []string{r + "@" + dstDom, aliasTo}))
+			}
+		}
+		return node("modify", nil, node("replace_rcpt", []string{"static"}, entries...))
+	}
 	var dests []config.Node
 	route := Route(c)
 	for _, r := range rcptIDs {
 		var kids []config.Node
+		if (c.Alias == "dest" || c.Alias == "destself") && r+"@"+dstDom != aliasTo {
+			kids = append(kids, rewrite(r))
+		}
+		if c.RejVia == "dmod" || c.ChkVia == "dmod" {
+			kids = append(kids, sessModNode)
+		}
 		for _, t := range route[r] {
 			kids = append(kids, node("deliver_to", []string{"verifscripted", t}))
 		}
 		dests = append(dests, node("destination", []string{r + "@" + dstDom}, kids...))
 	}
+	if c.Alias == "src" || c.Alias == "global" {
+		dests = append(dests, node("destination", []string{aliasTo}, node("deliver_to", []string{"verifscripted", "T1"})))
+	}
+	if c.RejVia == "dmod" {
+		// the refused recipient has a destination of its own; its modifier fails before the target is reached
+		dests = append(dests, node("destination", []string{"rej@" + dstDom}, sessModNode,
+			node("deliver_to", []string{"verifscripted", "T1"})))
+	} else {
+		dests = append(dests,
+			node("destination", []string{"rej@" + dstDom}, node("reject", []string{"550", "5.1.1", "no such user"})))
+	}
 	dests = append(dests,
-		node("destination", []string{"rej@" + dstDom}, node("reject", []string{"550", "5.1.1", "no such user"})),
 		node("default_destination", nil, node("reject", []string{"550", "5.1.2", "no such domain"})))
-	return []config.Node{
+	var top []config.Node
+	if c.RejVia == "gmod" || c.ChkVia == "gmod" {
+		top = append(top, sessModNode)
+	}
+	if c.RejVia == "smod" || c.ChkVia == "smod" {
+		dests = append([]config.Node{sessModNode}, dests...)
+	}
+	if c.Alias == "global" {
+		top = append(top, rewrite(rcptIDs...))
+	}
+	if c.Alias == "src" {
+		dests = append([]config.Node{rewrite(rcptIDs...)}, dests...)
+	}
+	return append(top, []config.Node{
 		node("hostname", []string{"mx.example.org"}),
 		node("tls", []string{"off"}),
 		node("defer_sender_reject", []string{yn}),
@@ -285,7 +354,7 @@ func endpointConfig(c Cfg, bufDir string) []config.Node {
 			node("source", []string{"concurrency", srcLimit})),
 		node("check", nil, node("verifnamed", []string{"CK"})),
 		node("default_source", nil, dests...),
-	}
+	}...)
 }
 
 func runBehaviour(t *testing.T, b Behaviour, w io.Writer) {
@@ -300,25 +369,41 @@ func runBehaviour(t *testing.T, b Behaviour, w io.Writer) {
 	synctest.Test(t, func(t *testing.T) {
 		tr := vtrace.New(w, b.ID)
 		tr.Emit("Cfg", vtrace.Ev{"lmtp": b.Cfg.Lmtp, "defer": b.Cfg.Defer, "nt": b.Cfg.Nt,
-			"shape": b.Cfg.Shape, "partial": b.Cfg.Partial, "hold": b.Cfg.Hold, "buf": b.Cfg.Buf, "cutpos": b.Cfg.CutPos})
-		cmds, plans := ScriptOf(b.Hist)
+			"shape": b.Cfg.Shape, "partial": b.Cfg.Partial, "hold": b.Cfg.Hold, "buf": b.Cfg.Buf, "cutpos": b.Cfg.CutPos,
+			"alias": b.Cfg.Alias, "rejvia": b.Cfg.RejVia, "chkvia": b.Cfg.ChkVia})
+		cmds, plans, tailEnv := ScriptOf(b.Hist)
+		var conn *tapConn
+		id := idOf
+		if b.Cfg.Alias != "" {
+			// the targets see the rewritten address: a recipient is identified by the RCPT command the
+			// server is processing when the target is called
+			id = func(a string) string {
+				if conn != nil {
+					if r := conn.curRcpt(); r != "" {
+						return r
+					}
+				}
+				return idOf(a)
+			}
+		}
 		var targets []*scripted.NamedTarget
 		for i := 1; i <= b.Cfg.Nt; i++ {
 			name := fmt.Sprintf("T%d", i)
 			targets = append(targets, &scripted.NamedTarget{TName: name, Tr: tr, Plan: plans[name],
-				Partial: b.Cfg.Partial, ID: idOf})
+				Partial: b.Cfg.Partial, ID: id})
 		}
 		scripted.SetNamed(targets...)
 		ck := &scripted.NamedCheck{CName: "CK", Tr: tr, Verdict: func(stage, arg string, hdr *textproto.Header) string {
 			switch {
 			case stage == "sender" && strings.HasSuffix(arg, "@"+rejDom):
 				return "reject"
-			case stage == "body" && hdr.Get("X-Verif-Reject") != "":
+			case stage == "body" && hdr.Get("X-Verif-Reject") != "" && b.Cfg.ChkVia == "":
 				return "reject"
 			}
 			return ""
 		}}
 		scripted.SetNamedChecks(ck)
+		setSessMod(&sessMod{tr: tr})
 
 		modName := "smtp"
 		if b.Cfg.Lmtp {
@@ -346,15 +431,19 @@ func runBehaviour(t *testing.T, b Behaviour, w io.Writer) {
 			releaseHeld = rel
 		}
 
-		conn := &tapConn{tr: tr, script: cmds, lines: wire(b.Cfg.Lmtp), body: dataBody(b.Cfg.CutPos),
-			permits: endp.VerifSessionPermits, mode: "cmd", done: make(chan struct{})}
+		env := newEnviron(tr, endp, cmds, tailEnv)
+		conn = &tapConn{tr: tr, script: cmds, lines: wire(b.Cfg.Lmtp), body: dataBody(b.Cfg.CutPos),
+			permits: endp.VerifSessionPermits, mode: "cmd", done: make(chan struct{}), tailEnv: tailEnv}
+		if env != nil {
+			conn.env = env.event
+		}
 		l := newOneListener(conn)
 		served := make(chan error, 1)
 		go func() { served <- endp.VerifSessionServe(l) }()
 
 		select {
 		case <-conn.done:
-		case <-time.After(10 * time.Minute): // fake clock: only reached when the server is stuck
+		case <-time.After(60 * time.Minute): // fake clock: only reached when the server is stuck
 			tr.Emit("Stuck", vtrace.Ev{})
 		}
 		synctest.Wait()
@@ -371,6 +460,9 @@ func runBehaviour(t *testing.T, b Behaviour, w io.Writer) {
 		tr.Emit("End", vtrace.Ev{"open": open, "nopen": nopen, "all": p["all"], "ip": p["ip"], "source": p["source"],
 			"sessions": endp.ConnectionCount(), "unsent": len(cmds) - conn.idx, "chkOpen": ck.OpenStates()})
 		releaseHeld()
+		if env != nil {
+			env.finish()
+		}
 		l.Close()
 		endp.Close()
 		<-served
